@@ -117,7 +117,66 @@ def check (op : String) : Rd Verdict := do
     if op == "movediag" && a.fmt == 0 && !a.sorted && dupPos then return ok (feats ++ ["ties_unspecified"])
     else return diff (path ++ "/arrays") s!"impl={describe out} model={describe m}" feats
 
+/-! ### distributed and block part: global image, shape and partition of the result -/
+
+def trips3 : List Int → List (Entry Int)
+  | i :: j :: x :: rest => ((if i < 0 then 1000000007 else i.toNat), (if j < 0 then 1000000007 else j.toNat), x) :: trips3 rest
+  | _ => []
+
+def parOpName : Nat → String
+  | 0 => "assemble" | 1 => "conv" | 2 => "copy" | 3 => "transpose" | 4 => "add" | 5 => "subtract"
+  | 6 => "to_ParBSR" | _ => "ParBSR_to_ParCSR"
+
+def checkPar : Rd Verdict := do
+  let op ← rdNat; let from_ ← rdNat; let to ← rdNat; let step ← rdNat; let np ← rdNat; let kind ← rdNat
+  let nRows ← rdNat; let nCols ← rdNat; let br ← rdNat; let bc ← rdNat
+  let ta ← rdVec; let tb ← rdVec; let ents ← rdVec
+  let nsh ← rdNat
+  let shape ← (List.range nsh).mapM fun _ => (List.range 11).mapM fun _ => rdInt
+  let a := trips3 ta; let b := trips3 tb; let out := trips3 ents
+  let name := parOpName op
+  let rect := nRows != nCols
+  let path := s!"C07/par/{name}" ++ (if op == 1 then s!"/{fmtName from_}->{fmtName to}" else if op ≤ 3 then s!"/{fmtName from_}" else "") ++
+              (if br * bc > 1 then "/block" else "") ++ (if rect then "/rect" else "")
+  let lrs := shape.map fun s => (s.getD 0 0).toNat
+  let feats := ["par", name, s!"np{np}", s!"layout{kind}", if rect then "rect" else "square",
+                if lrs.any (· == 0) then "emptyrank" else "fullranks", s!"b{br}x{bc}", s!"step{step}",
+                if a.isEmpty then "trivial" else "nonempty"] ++
+               (if op == 1 then [s!"{fmtName from_}->{fmtName to}"] else [])
+  -- a matrix without rows has columns that no rank owns (the partition invariant, C18): its transpose has no
+  -- distributed representation
+  if op == 3 && nRows == 0 then return ok (feats ++ ["trivial", "unowned_columns"])
+  let (wr, wc) := if op == 3 then (nCols, nRows) else (nRows, nCols)
+  -- block results report their sizes in blocks
+  let (ubr, ubc) := if op == 6 then (br, bc) else (1, 1)
+  for (s, r) in shape.zipIdx do
+    if (s.getD 7 0).toNat * ubr != wr || (s.getD 8 0).toNat * ubc != wc then
+      return specFail (path ++ "/spec/global_dims") s!"rank{r} reports {s.getD 7 0}x{s.getD 8 0} (block {ubr}x{ubc}), expected {wr}x{wc}" feats
+    if op == 6 && ((s.getD 9 0).toNat != br || (s.getD 10 0).toNat != bc) then
+      return specFail (path ++ "/spec/block_size") s!"rank{r} block {s.getD 9 0}x{s.getD 10 0}, expected {br}x{bc}" feats
+  if (lrs.map (· * ubr)).sum != wr then
+    return specFail (path ++ "/spec/local_rows_sum") s!"local rows {showList lrs} (x{ubr}) do not sum to {wr}" feats
+  -- contiguous row blocks in rank order
+  let firsts := shape.map fun s => (s.getD 2 0).toNat
+  let pref := (List.range np).map fun r => (lrs.take r).sum
+  if (List.range np).any (fun r => lrs.getD r 0 != 0 && firsts.getD r 0 != pref.getD r 0) then
+    return specFail (path ++ "/spec/row_blocks") s!"first rows {showList firsts} local rows {showList lrs}" feats
+  if out.any (fun e => e.1 ≥ wr || e.2.1 ≥ wc) then
+    return specFail (path ++ "/spec/index_range") s!"an entry lies outside {wr}x{wc}: {showList ((out.filter fun e => e.1 ≥ wr || e.2.1 ≥ wc).map toString)}" feats
+  let want := match op with
+    | 3 => denseOf (a.map fun e => (e.2.1, e.1, e.2.2))
+    | 4 => denseOf (a ++ b)
+    | 5 => denseOf (a ++ b.map fun e => (e.1, e.2.1, -e.2.2))
+    | _ => denseOf a
+  let got := denseOf out
+  if got != want then
+    let missing := want.filter fun w => !(got.contains w)
+    let extra := got.filter fun w => !(want.contains w)
+    return specFail (path ++ "/spec/den") s!"missing/different={showList ((missing.take 6).map toString)} unexpected={showList ((extra.take 6).map toString)}" feats
+  return ok feats
+
 def run (op : String) (a : Array Int) : Verdict :=
-  (runRd (check op) a).getD (badCase "malformed")
+  if op == "par" then (runRd checkPar a).getD (badCase "malformed")
+  else (runRd (check op) a).getD (badCase "malformed")
 
 end Raptor.Driver.C07
